@@ -1,15 +1,10 @@
 (* Lib/HCaseIO.v (group h2): helpers of the correspondence shards only (never used by theorems):
-   compact byte-string literals (7 bytes per primitive 63-bit integer - a 1 kB string is 147 nodes
-   instead of ~12000), list comparison, mismatch collection. *)
-From Coq Require Import List NArith ZArith Uint63 Bool.
+   list comparison, mismatch collection.  The compact byte-string literals (`ub`: 7 bytes per primitive
+   63-bit integer - a 1 kB string is 147 nodes instead of ~12000) are defined in the header of each shard
+   (harness/cmd/h2/coqio.go ubDefs) so that no compiled library of the development depends on Uint63. *)
+From Coq Require Import List NArith Bool.
 Import ListNotations.
 Open Scope N_scope.
-
-Definition bytew (w : int) (k : int) : N := Z.to_N (Uint63.to_Z (Uint63.land (Uint63.lsr w k) 255%uint63)).
-Definition unpack7 (w : int) : list N :=
-  [bytew w 48; bytew w 40; bytew w 32; bytew w 24; bytew w 16; bytew w 8; bytew w 0]%uint63.
-(* ub n ws: the first n bytes of the big-endian expansion of the words ws *)
-Definition ub (n : N) (ws : list int) : list N := firstn (N.to_nat n) (flat_map unpack7 ws).
 
 (* indices of the cases on which `check` fails *)
 Fixpoint mism_from {A} (check : A -> bool) (cases : list A) (i : nat) : list nat :=
